@@ -406,12 +406,17 @@ def check_case(case, ctx):
             gap2 = 0.0
         gap1 = abs(out["dual"] - out["primal"]) if ("dual" in out and "primal" in out) else 0.0
         g2 = float(np.max(np.abs(np.asarray(it2.env.pep.wrapper.get_primal_variables()[0], dtype=float))))
-        if max(g2, out.get("gmax", 0.0)) > 1e6 * scale:
+        if max(g2, out.get("gmax", 0.0)) > 1e4 * scale:
             # Gram entries many orders of magnitude above the optimal value: a numerically unbounded model on which the
             # solver's 'optimal' numbers are not reproducible
             ctx.label("inconclusive:numerically-unbounded-model")
             continue
         if not opts.get("drh") and max(gap1, gap2) > k * scale:
+            ctx.label("inconclusive:large-duality-gap")
+            continue
+        if opts.get("drh") and max(gap1, gap2) > 1.01 * opts.get("tol_dr", 1e-4) + 5 * k * scale:
+            # after a heuristic the primal value may sit tol_dimension_reduction below the bound, not more: a larger gap means
+            # the solver did not solve one of the two runs accurately (seen: Gram entries 5e7 for a value of 7e3)
             ctx.label("inconclusive:large-duality-gap")
             continue
         tol = (3 if sc != "SCS" else 10) * k * scale * (5 if opts.get("drh") and opts.get("ret") == "primal" else 1)
